@@ -229,8 +229,16 @@ func VerifC09_Ticking() {
 	src := &c09TickSource{w: w, n: n, dst: "Sink.In"}
 	snk := &c09TickSink{w: w, stalls: 2}
 	freqs := []timing.Freq{1 * timing.GHz, 2 * timing.GHz, 700 * timing.MHz}
-	srcC := modeling.NewTickingComponent("Src", w.engine, freqs[verifrt.Choice("src-freq", 3)], src)
-	snkC := modeling.NewTickingComponent("Sink", w.engine, freqs[verifrt.Choice("sink-freq", 3)], snk)
+	// quick tier: the pairs (1 GHz, 1 GHz), (1 GHz, 700 MHz), (2 GHz, 1 GHz), (700 MHz, 2 GHz); thorough: all nine
+	var sf, kf int
+	if verifrt.Thorough() {
+		sf, kf = verifrt.Choice("src-freq", 3), verifrt.Choice("sink-freq", 3)
+	} else {
+		pair := [][2]int{{0, 0}, {0, 2}, {1, 0}, {2, 1}}[verifrt.Choice("freq-pair", 4)]
+		sf, kf = pair[0], pair[1]
+	}
+	srcC := modeling.NewTickingComponent("Src", w.engine, freqs[sf], src)
+	snkC := modeling.NewTickingComponent("Sink", w.engine, freqs[kf], snk)
 	src.out = w.port(srcC, "Src.Out", 1, 1+verifrt.Choice("src-out-cap", 2))
 	snk.in = w.port(snkC, "Sink.In", 1+verifrt.Choice("sink-in-cap", 2), []int{1, 3}[verifrt.Choice("sink-out-cap", 2)])
 	w.connect("Conn", src.out, snk.in)
